@@ -17,7 +17,10 @@
 # the headroom, capacity and emptiness of a fresh one - evaluated, on the full
 # buffer, from the bodies of the msgb helpers, C06.R11 every DLCI enumerator
 # and every constant DLCI registered / sent on in sercomm.c is inside the
-# per-DLCI tables.  See DESIGN.md section 7, C06.
+# per-DLCI tables, C06.R12 the receive path evaluated octet by octet on witness
+# streams (empty / one-octet / escaped / longest payload, noise between frames)
+# calls the registered handlers with exactly the messages sent.
+# See DESIGN.md section 7, C06.
 
 import os
 import shutil
@@ -86,7 +89,9 @@ EXPLANATION = (
     "replayed on the full buffer of each build by evaluating the msgb helpers' bodies, and the buffer left for the next frame "
     "must have the headroom the handlers push into, the full receive capacity and no content.  The per-DLCI tables: enumerator "
     "values of the DLCI enumeration and the constant DLCIs at the register / sendmsg call sites of sercomm.c are compared "
-    "with the array extents clang resolved for dlci_handler[] / dlci_queues[].  A statement about all paths of "
+    "with the array extents clang resolved for dlci_handler[] / dlci_queues[].  The receive path as a whole (sercomm_init, "
+    "sercomm_register_rx_cb, sercomm_drv_rx_char per octet, dispatch_rx_msg, msgb helpers) is additionally evaluated on witness "
+    "streams built from the transmitter's constants, and the recorded handler calls must be the messages sent.  A statement about all paths of "
     "one step holds for every octet stream and every queueing history.")
 ALLOC_ASSUMPTION = (
     "sercomm_alloc_msgb() returns a buffer (non-NULL) in the receive step: the property quantifies over histories in which "
@@ -3757,6 +3762,305 @@ def r11_table_extent(L, tu, tag):
     return ext
 
 
+# ------------------------------------------- C06.R12 fold of the receiver over witness streams
+
+FREE_FNS = ("_talloc_free", "talloc_free")
+INIT_FN = "sercomm_init"
+WITNESS_CTRL = 0x03         # HDLC_C_UI, the control octet sercomm_sendmsg() writes (the receiver only stores it)
+
+
+class RxFold(MsgbEval):
+    """MsgbEval extended to what the receive step needs.  File-scope objects of sercomm.c without initialiser
+    (zero-initialised, e.g. `sercomm`) are a store member-path -> value that lives across calls; switch
+    statements are executed (case arms in order, fall through, break); the octets written into the data area are
+    kept; talloc_free() of the buffer and a call through a registered handler release it (pointers that still
+    refer to it become 'dead': non-NULL, anything done through them has no verdict), so the next allocation is a
+    new buffer; a call through a value ('@', 'handler', d) is recorded as a delivery."""
+
+    def __init__(self, tus, zero):
+        MsgbEval.__init__(self, tus)
+        self.zero = zero
+        self.glob, self.mem, self.envs = {}, {}, {}
+        self.delivered = []
+        self.released = 0
+
+    # -- the state object
+    def groot(self, e, env):
+        while True:
+            e = strip(e)
+            k = kind(e)
+            if k == "DeclRefExpr":
+                rd = e.get("referencedDecl", {})
+                return rd.get("kind") == "VarDecl" and rd.get("id") not in env and rd.get("name") in self.zero
+            if k in ("MemberExpr", "ArraySubscriptExpr") and not e.get("isArrow"):
+                e = kids(e)[0]
+            else:
+                return False
+
+    def gpath(self, tu, e, env, depth):
+        e = strip(e)
+        k = kind(e)
+        if k == "DeclRefExpr":
+            return e.get("referencedDecl", {}).get("name")
+        base = self.gpath(tu, kids(e)[0], env, depth)
+        if k == "MemberExpr":
+            return None if base is None else "%s.%s" % (base, e.get("name"))
+        i = self.ev(tu, kids(e)[1], env, depth)
+        if base is None or not isinstance(i, int):
+            return None
+        ext = array_extent(strip(kids(e)[0]).get("type", {}).get("qualType"))
+        if ext is None:
+            return None         # indexing through a pointer object, not a member array
+        if not 0 <= i < ext:
+            raise AnalysisError("receive fold: `%s` evaluated with index %d outside its extent %d" % (ctext(e), i, ext))
+        return "%s[%d]" % (base, i)
+
+    def lv(self, tu, e, env, depth):
+        e = strip(e)
+        if self.groot(e, env):
+            p = self.gpath(tu, e, env, depth)
+            return ("unk",) if p is None else ("g", p)
+        if kind(e) == "MemberExpr" and e.get("isArrow"):
+            bv = self.ev(tu, kids(e)[0], env, depth)
+            if _sym(bv) and bv[1].startswith("g:") and bv[2] == 0:
+                return ("g", "%s.%s" % (bv[1][2:], e.get("name")))
+            if bv == ("@", "obj", 0):
+                return ("field", e.get("name"))
+            if isinstance(bv, int) and bv == 0:
+                raise AnalysisError("receive fold: member `%s` read through a null pointer" % ctext(e))
+            return ("unk",)
+        return MsgbEval.lv(self, tu, e, env, depth)
+
+    def load(self, loc, env):
+        if loc[0] == "g":
+            return self.glob.get(loc[1], 0)
+        if loc[0] == "mem":
+            return self.mem.get(loc[1][2])
+        if loc[0] == "field" and self.obj is None:
+            raise AnalysisError("receive fold: a released buffer is read")
+        return MsgbEval.load(self, loc, env)
+
+    def store(self, loc, v, qt, env, what):
+        if loc[0] == "g":
+            self.glob[loc[1]] = self.wrap(v, qt)
+            return
+        if loc[0] == "mem":
+            self.mem[loc[1][2]] = self.wrap(v, qt)
+        if loc[0] == "field" and self.obj is None:
+            raise AnalysisError("receive fold: a released buffer is written: `%s`" % what)
+        MsgbEval.store(self, loc, v, qt, env, what)
+
+    def release(self):
+        gen, self.released = self.released, self.released + 1
+        for d in [self.glob] + list(self.envs.values()):
+            for k2, v in d.items():
+                if _sym(v) and v[1] in ("obj", "buf"):
+                    d[k2] = ("@", "dead", gen)
+        self.obj, self.alloc, self.mem, self.stores = None, None, {}, []
+
+    def payload(self):
+        o = self.obj
+        d, t, n = o.get("data", 0), o.get("tail", 0), o.get("len", 0)
+        if not (_sym(d) and _sym(t) and d[1] == t[1] == "buf" and isinstance(n, int) and t[2] - d[2] == n and n >= 0):
+            return ("data=%s tail=%s len=%s" % (_vtext(d), _vtext(t), _vtext(n)),)
+        return tuple(self.mem.get(i) for i in range(d[2], t[2]))
+
+    def deliver(self, h, args):
+        if len(args) != 2:
+            raise AnalysisError("receive fold: DLCI handler called with %d arguments" % len(args))
+        if args[1] == ("@", "obj", 0) and self.obj is not None:
+            self.delivered.append((h, args[0], self.payload()))
+            self.release()          # the handler owns the buffer now
+        elif isinstance(args[1], int) and args[1] == 0:
+            self.delivered.append((h, args[0], ("NULL buffer",)))
+        else:
+            raise AnalysisError("receive fold: DLCI handler called with `%s`, not the receive buffer" % _vtext(args[1]))
+
+    # -- evaluation
+    def call(self, name, args, depth=0):
+        if name in FREE_FNS:
+            p = args[0] if args else None
+            if p == ("@", "obj", 0) and self.obj is not None:
+                self.release()
+                return 0
+            if isinstance(p, int) and p == 0:
+                return None
+            raise AnalysisError("receive fold: %s(%s) is not the live receive buffer" % (name, _vtext(p)))
+        return MsgbEval.call(self, name, args, depth)
+
+    def fnval(self, tu, e, env, depth):
+        s = strip(e, casts=True)
+        if kind(s) == "UnaryOperator" and s.get("opcode") == "*":
+            return self.fnval(tu, kids(s)[0], env, depth)
+        return self.ev(tu, e, env, depth)
+
+    def ev(self, tu, e, env, depth):
+        k = kind(e) if e else None
+        if k == "BinaryOperator" and all(kind(strip(c)) == "UnaryExprOrTypeTraitExpr" for c in kids(e)):
+            v = tu.fold(e)          # ARRAY_SIZE(): sizeof of a type the evaluation has no size for
+            if v is not None:
+                return v
+        if k == "UnaryOperator" and e.get("opcode") == "&":
+            s = strip(kids(e)[0])
+            if kind(s) == "DeclRefExpr" and s.get("referencedDecl", {}).get("kind") == "FunctionDecl":
+                return ("@", "fn:" + s["referencedDecl"].get("name", "?"), 0)
+            loc = self.lv(tu, s, env, depth)
+            if loc[0] == "g":
+                return ("@", "g:" + loc[1], 0)
+            if loc[0] == "mem":
+                return loc[1]
+            return ("@", "buf", 0) if loc == ("field", "_data") else None
+        if k == "CallExpr":
+            ks = kids(e)
+            callee = strip(ks[0], casts=True)
+            rd = callee.get("referencedDecl", {}) if kind(callee) == "DeclRefExpr" else {}
+            if rd.get("kind") != "FunctionDecl":
+                fv = self.fnval(tu, ks[0], env, depth)
+                args = [self.ev(tu, a, env, depth) for a in ks[1:]]
+                if not (_sym(fv) and fv[1] == "handler"):
+                    raise AnalysisError("receive fold: call through `%s` = %s, which is not a registered witness handler"
+                                        % (ctext(ks[0]), _vtext(fv)))
+                self.deliver(fv[2], args)
+                return None
+        return MsgbEval.ev(self, tu, e, env, depth)
+
+    @staticmethod
+    def binop(op, a, b):
+        if op in CMP:       # any address (state object, handler, released buffer) against NULL
+            if _sym(a) and a[1] != "S" and isinstance(b, int) and b == 0:
+                a = 1
+            elif _sym(b) and b[1] != "S" and isinstance(a, int) and a == 0:
+                b = 1
+        return MsgbEval.binop(op, a, b)
+
+    def run_switch(self, tu, st, env, depth):
+        raw = [x for x in st.get("inner", []) if x]
+        v = self.ev(tu, raw[-2], env, depth) if len(raw) >= 2 else None
+        if not isinstance(v, int) or kind(raw[-1]) != "CompoundStmt":
+            raise AnalysisError("receive fold: switch on `%s` does not evaluate" % (ctext(raw[-2]) if len(raw) >= 2 else "?"))
+        seq = []
+        for x in kids(raw[-1]):
+            labels = []
+            while kind(x) in ("CaseStmt", "DefaultStmt"):
+                ks = kids(x)
+                if kind(x) == "CaseStmt":
+                    c = tu.fold(ks[0]) if len(ks) == 2 else None
+                    if c is None:
+                        raise AnalysisError("receive fold: case label does not fold")
+                    labels.append(c)
+                else:
+                    labels.append("default")
+                x = ks[-1]
+            seq.append((labels, x))
+
+        def nested(n):
+            return any(kind(c) in ("CaseStmt", "DefaultStmt") or (kind(c) != "SwitchStmt" and nested(c)) for c in kids(n))
+        if any(nested(x) for _, x in seq):
+            raise AnalysisError("receive fold: case label inside a nested statement")
+        start = next((i for i, (ls, _) in enumerate(seq) if v in ls), None)
+        if start is None:
+            start = next((i for i, (ls, _) in enumerate(seq) if "default" in ls), None)
+        if start is None:
+            return None
+        for _, x in seq[start:]:
+            r = self.run(tu, x, env, depth)
+            if r == ("break",):
+                return None
+            if r is not None:
+                return r
+        return None
+
+    def run(self, tu, st, env, depth):
+        self.envs[id(env)] = env
+        k = kind(st) if st else None
+        if k == "SwitchStmt":
+            return self.run_switch(tu, st, env, depth)
+        if k == "DeclStmt" and any(d.get("storageClass") == "static" for d in kids(st)):
+            raise AnalysisError("receive fold: function-local static object")
+        return MsgbEval.run(self, tu, st, env, depth)
+
+    def step(self, octet):
+        self.envs = {}
+        try:
+            self.call(RX_FN, [octet])
+        except _Abort as e:
+            raise AnalysisError("receive fold: %s() reached on a witness stream (C06.R1 / C06.R7 decide the bounds)" % e)
+
+
+def rx_fold_start(tu, mtu):
+    """Evaluator in the state sercomm_init() leaves behind (run on the zero-initialised objects of sercomm.c)."""
+    zero = set(n for n, d in tu.vars.items() if not d.get("init") and d.get("storageClass") != "extern"
+               and os.path.basename(d.get("_file") or "sercomm.c") == "sercomm.c")
+    ev = RxFold((tu, mtu), zero)
+    if ev.find(RX_FN) is None:
+        raise AnalysisError("anchor function %s() vanished" % RX_FN)
+    if ev.find(INIT_FN) is not None:
+        try:
+            ev.call(INIT_FN, [])
+        except _Abort as e:
+            raise AnalysisError("receive fold: %s() ends in %s()" % (INIT_FN, e))
+    return ev
+
+
+def r12_rx_fold(L, tu, mtu, tag, size, K):
+    """C06.R12 - the receiver, run.  Decides the clause `delivered to the handler registered for its DLCI with
+    identical DLCI and payload, exactly once each` (and `flag-free noise between frames is ignored`) on witness
+    streams: sercomm_init(), sercomm_register_rx_cb(d, handler_d) and then sercomm_drv_rx_char() for every octet
+    of the stream are EVALUATED (RxFold: the state object, dispatch_rx_msg and whatever helpers are called, the
+    msgb allocation / tailroom / put on a concrete buffer) - however the step is written.  A stream is what the
+    transmitter tables of C06.R2 put on the wire for a message list: flag, DLCI, control octet, payload (escaped
+    set and XOR constant as extracted from sercomm_drv_pull), flag.  Witnesses: the empty payload, one octet,
+    flag / escape / zero octets in the payload, empty payloads between other messages with noise between the
+    frames, and the longest payload the property promises (receive size - 1).  Required: the recorded handler
+    calls are exactly the message list, in order.  Every witness is an input of the property's quantifier, so a
+    mismatch is a counterexample; a step the evaluation cannot follow is no verdict."""
+    R = "C06.R12"
+    L.fn(F, RX_FN)
+    probe = rx_fold_start(tu, mtu)
+    if probe.find(REG) is None:
+        raise AnalysisError("anchor function %s() vanished" % REG)
+    free = [d for d in range(256) if probe.call(REG, [d, ("@", "handler", d)]) == 0]
+    if len(free) < 3:
+        raise AnalysisError("receive fold: %s() accepts fewer than 3 DLCIs" % REG)
+    d0, d1, d2 = free[0], free[len(free) // 2], free[-1]
+    if not all(isinstance(getattr(K, a, None), int) for a in ("flag", "esc", "xor")):
+        raise AnalysisError("receive fold: flag / escape / XOR constants of the transmitter unknown")
+    noise = [o for o in (0x00, 0x41, K.esc, 0xFF) if o != K.flag]
+    witnesses = (
+        ("one message with an empty payload", [(d1, [])], []),
+        ("one message with a one-octet payload", [(d1, [0x41])], []),
+        ("payload made of flag, escape, zero and ordinary octets", [(d0, [K.flag, K.esc, 0x00, 0x41, K.flag ^ K.xor, K.esc])], []),
+        ("empty payloads between other messages, flag-free noise between the frames",
+         [(d1, []), (d0, [1, 2, 3]), (d1, []), (d2, [K.esc]), (d0, []), (d2, [0x42])], noise),
+        ("longest promised payload (%d octets) followed by a short message" % (size - 1),
+         [(d1, [(7 * i + 1) & 0xFF for i in range(size - 1)]), (d0, [0x55])], []),
+    )
+
+    def wire(o):
+        return [K.esc, o ^ K.xor] if o in K.escaped else [o]
+
+    def show(h, d, p):
+        body = " ".join("??" if o is None else o if isinstance(o, str) else "%02X" % o for o in p[:8])
+        return "handler[%s](dlci %s, %s)" % (h, _vtext(d), "[%s%s]" % (body, " .. %d octets" % len(p) if len(p) > 8 else ""))
+
+    for title, msgs, gap in witnesses:
+        ev = rx_fold_start(tu, mtu)
+        for d in sorted({d for d, _ in msgs}):
+            if ev.call(REG, [d, ("@", "handler", d)]) != 0:
+                raise AnalysisError("receive fold: %s(%d, .) refused" % (REG, d))
+        stream = []
+        for d, p in msgs:
+            stream += gap + [K.flag] + wire(d) + wire(WITNESS_CTRL) + [x for o in p for x in wire(o)] + [K.flag]
+        for o in stream + gap:
+            ev.step(o)
+        want = [(d, d, tuple(p)) for d, p in msgs]
+        L.ob(R, F, RX_FN, "receive fold [%s]: %s -- every frame of the stream is handed to the handler registered for its "
+             "DLCI exactly once, with its DLCI and payload, in order" % (tag, title),
+             "; ".join(show(*w) for w in want), "; ".join(show(*g) for g in ev.delivered) or "no handler call",
+             ev.delivered == want, tu.line(tu.func(RX_FN)))
+    L.floor(R, "witness streams folded through %s (%s build)" % (RX_FN, tag), len(witnesses), 5)
+
+
 # ------------------------------------------------------- C06.R5 (thorough)
 
 SEARCH = (("fw", "src/target/firmware"), ("osmocon", "src/host/osmocon"))
@@ -5273,6 +5577,7 @@ def run(L, tier):
         K = L.stage(r2_tx, L, tu, tag, tx)
         if K is None:
             continue        # the transmitter's shape is already reported as violated
+        L.stage(r12_rx_fold, L, tu, mtu, tag, size, K)
         chain = L.stage(r2_r3_rx, L, tu, tag, rx, K)
         if chain is None:
             continue
